@@ -287,6 +287,16 @@ func (r *histRun) query(q M, idx int) interface{} {
 					break
 				}
 			}
+			if getb(q, "inverse") {
+				// the inverse scan emits in Go map order and its page boundaries are soft: compare what
+				// all pages returned together (duplicates kept), not the page structure
+				union := [][]string{}
+				for _, p := range pages {
+					union = append(union, p...)
+				}
+				sort.Slice(union, func(i, j int) bool { return union[i][0]+"|"+union[i][1] < union[j][0]+"|"+union[j][1] })
+				return M{"union": union}
+			}
 			return M{"pages": pages, "done": len(from) == 0}
 		}
 		rel, cont, err := page(from)
@@ -295,6 +305,9 @@ func (r *histRun) query(q M, idx int) interface{} {
 		}
 		if save := gets(q, "save"); save != "" {
 			r.conts[save] = cont
+		}
+		if getb(q, "inverse") {
+			return M{"rel": rel} // the continuation of the inverse scan is not an observable of the property
 		}
 		return M{"rel": rel, "done": len(cont) == 0}
 	}
@@ -567,7 +580,7 @@ func (g *storeGen) queries(opIdx int, nops int) []M {
 		if (g.atOnly || r.Intn(3) == 0) && opIdx > 0 {
 			q["at"] = M{"op": r.Intn(opIdx + 1), "delta": r.Intn(3) - 1}
 		}
-		if q["limit"].(int) > 0 && r.Intn(2) == 0 {
+		if q["limit"].(int) > 0 && (r.Intn(2) == 0 || q["inverse"].(bool)) {
 			q["maxPages"] = 12
 			qs = append(qs, q)
 			return qs
